@@ -420,6 +420,12 @@ func TestVerifBatcher(t *testing.T) {
 	}
 	cfgs := []cfg{{0, 0, 1}, {2, 0, 1}, {3, 0, 1}, {0, 2, 1}, {2, 2, 1}, {2, 3, 1}, {3, 4, 1}, {4, 4, 1}, {3, 4, 0}, {2, 3, 2}}
 	var n int64
+	maxBound := bound
+	startBound := ctx.Param("start_bound", maxBound) // thorough: iterative deepening from the quick tier's bound
+	completed := startBound - 1
+	defer func() { ctx.R.Extra["bound_completed"] = completed }()
+	for bound = startBound; bound <= maxBound; bound++ {
+	all := true
 	for _, cf := range cfgs {
 		for _, sq := range seqs {
 			total := 0
@@ -452,7 +458,7 @@ func TestVerifBatcher(t *testing.T) {
 							continue
 						}
 						if ctx.Expired() {
-							ctx.Cap("time budget")
+							ctx.Cap(fmt.Sprintf("time budget reached at bound %d; complete up to bound %d", bound, completed))
 							return
 						}
 						c := &c04bCase{Min: cf.min, Max: cf.max, Workers: cf.workers, Consumers: consumers, Poison: poison, Idle: idle}
@@ -489,7 +495,8 @@ func TestVerifBatcher(t *testing.T) {
 							ctx.Infra("%+v: %s", *c, x)
 						}
 						if st.Capped {
-							ctx.Cap("bound not completed")
+							all = false
+							ctx.Cap(fmt.Sprintf("bound %d not completed", bound))
 						}
 						ctx.R.Trans += st.Steps
 						ctx.R.States += st.Nodes
@@ -497,5 +504,10 @@ func TestVerifBatcher(t *testing.T) {
 				}
 			}
 		}
+	}
+	if !all {
+		break
+	}
+	completed = bound
 	}
 }
